@@ -124,6 +124,141 @@ def jsonable(x):
     return {"re": a.astype(float).tolist()}
 
 
+# ---- leading state preparations.  The reference never sees the state-preparation operator: BasisState(bits, ws) is
+# replaced by PauliX on the wires whose bit is 1 and StatePrep(v, ws) by the Householder reflection U = 1 - 2 w w^+ / |w|^2,
+# w = e0 - v (v[0] real), the unitary with U|0..0> = v, both acting on |0...0> with ws[0] the most significant wire
+# (the documented meaning of a state preparation on a wire list).
+PREP_VECS = {1: [([3, 4j], 5), ([4, -3], 5), ([5, 12j], 13), ([0, 1j], 1), ([12, -5j], 13)],
+             2: [([1, 2j, -2, 4], 5), ([2, 4, 5j, -6], 9), ([1, 1j, -1, -1j], 2), ([2, 0, 3j, -6], 7), ([0, 3, 0, 4j], 5)],
+             3: [([3, 1j, -1, 1, -1j, 1, 1, -1], 4), ([1, 2j, -2, 4, 0, 0, 0, 0], 5), ([1, 1, 1j, -3, 1, -1, 1j, 1], 4),
+                 ([2, 0, 4, 0, 0, 5j, 0, -6], 9)]}
+
+
+def householder(v):
+    v = np.asarray(v, dtype=complex)
+    assert abs(v[0].imag) < 1e-15 and abs(np.vdot(v, v) - 1) < 1e-12 and abs(v[0] - 1) > 1e-9
+    w = -v.copy(); w[0] += 1
+    return np.eye(len(v), dtype=complex) - 2 * np.outer(w, w.conj()) / np.real(np.vdot(w, w))
+
+
+def prep_pair(kind, data, ws):
+    """(operator given to default.qubit, reference operators acting on |0..0>)"""
+    if kind == "basis":
+        return qp.BasisState(np.array(data), wires=ws), [qp.PauliX(w) for b, w in zip(data, ws) if b]
+    num, den = data
+    v = np.array(num, dtype=complex) / den
+    return qp.StatePrep(v, wires=ws), [qp.QubitUnitary(householder(v), wires=ws)]
+
+
+def meas_of(mdesc):
+    ms = []
+    for d in mdesc:
+        if d["kind"] == "state":
+            ms.append(qp.state())
+        elif d["kind"] == "probs":
+            ms.append(qp.probs(wires=d["wires"]))
+        elif d["kind"] in ("expval", "var"):
+            fs = [getattr(qp, "Pauli" + ch)(w) for ch, w in zip(d["word"], d["wires"])]
+            o = qp.prod(*fs) if len(fs) > 1 else fs[0]
+            ms.append(qp.expval(o) if d["kind"] == "expval" else qp.var(o))
+        elif d["kind"] == "dm":
+            ms.append(qp.density_matrix(wires=d["wires"]))
+        elif d["kind"] == "vn_entropy":
+            ms.append(qp.vn_entropy(wires=d["wires"], log_base=d["log_base"]))
+        elif d["kind"] == "mutual_info":
+            ms.append(qp.mutual_info(wires0=d["wires0"], wires1=d["wires1"], log_base=d["log_base"]))
+        else:
+            ms.append(qp.purity(wires=d["wires"]))
+    return ms
+
+
+def execute_case(labels, dev_wires, ops, ref_ops, ms, mdesc, iface, via="qnode"):
+    """run `ops` on default.qubit; `ref_ops` (same circuit with the state preparation replaced as above) goes to the exact
+    reference simulation"""
+    run = {"labels": labels, "dev_wires": dev_wires, "ops": [repr(o) for o in ops], "meas": mdesc, "interface": iface, "status": "ok", "via": via}
+    runs.append(run)
+    try:
+        run["circuit"] = exact_circuit_gallina(ref_ops, dev_wires)
+        run["n"] = len(dev_wires)
+        if via == "execute":      # plain tape execution, device without wires (dev_wires must then be sorted labels)
+            res = qp.execute([qp.tape.QuantumScript(ops, ms)], qp.device("default.qubit"))[0]
+        else:
+            dev = qp.device("default.qubit", wires=dev_wires)
+
+            def circuit():
+                for o in ops:
+                    qp.apply(o)
+                return tuple(qp.apply(m) for m in ms) if len(ms) > 1 else qp.apply(ms[0])
+            qn = qp.QNode(circuit, dev, interface=None if iface == "numpy" else iface, diff_method=None if iface == "numpy" else "best")
+            res = qn()
+        res = res if isinstance(res, tuple) else (res,)
+        run["results"] = [jsonable(r.detach().numpy() if hasattr(r, "detach") else r) for r in res]
+    except NotExtractable as e:
+        run["status"], run["detail"] = "notex", str(e)[:200]
+    except Exception as e:
+        run["status"], run["detail"] = "error", f"{type(e).__name__}: {str(e)[:300]}"
+
+
+# ---- fixed corpus (runs first, independent of the seed): leading state preparations whose wires are not 0..k-1 in
+# ascending order, on registers labelled 0..n-1 (no relabelling happens then) and on labelled registers
+A1, A2, A3 = 2 * math.atan2(8, 15), 2 * math.atan2(3, 4), 2 * math.atan2(-5, 12)      # rational half-angle cos/sin
+FIXED = [
+    # (labels, dev_wires, prep kind, prep data, prep wires, gates, measurements, interface, via)
+    ([0, 1, 2], [0, 1, 2], "vec", PREP_VECS[2][0], [2, 0], [("RY", [A1], [1]), ("CNOT", [], [1, 2]), ("RX", [A2], [0])],
+     [{"kind": "state"}], "numpy", "execute"),
+    ([0, 1, 2], [0, 1, 2], "vec", PREP_VECS[2][0], [2, 0], [("RY", [A1], [1]), ("CNOT", [], [1, 2]), ("RX", [A2], [0])],
+     [{"kind": "probs", "wires": [0, 1, 2]}, {"kind": "expval", "word": ["Z"], "wires": [0]}], "numpy", "execute"),
+    ([0, 1], [0, 1], "vec", PREP_VECS[2][1], [1, 0], [("RX", [A3], [0])],
+     [{"kind": "probs", "wires": [0, 1]}, {"kind": "expval", "word": ["Z", "X"], "wires": [0, 1]}], "numpy", "qnode"),
+    ([0, 1], [0, 1], "vec", PREP_VECS[1][0], [1], [("RY", [A1], [0]), ("CNOT", [], [0, 1])],
+     [{"kind": "state"}], "numpy", "qnode"),
+    ([0, 1, 2], [2, 0, 1], "vec", PREP_VECS[2][3], [1, 2], [("Hadamard", [], [0]), ("CRX", [A2], [0, 1])],
+     [{"kind": "dm", "wires": [1, 0]}, {"kind": "var", "word": ["Y"], "wires": [2]}], "numpy", "qnode"),
+    ([0, 1, 2, 3], [0, 1, 2, 3], "vec", PREP_VECS[3][0], [3, 0, 2], [("RY", [A2], [1]), ("CZ", [], [1, 3]), ("IsingXX", [A1], [0, 2])],
+     [{"kind": "state"}], "numpy", "qnode"),
+    ([0, 1, 2], [0, 1, 2], "basis", [1, 0], [2, 0], [("RY", [A1], [1]), ("CNOT", [], [1, 0]), ("RX", [A2], [2])],
+     [{"kind": "probs", "wires": [0, 1, 2]}, {"kind": "expval", "word": ["Z"], "wires": [2]}], "numpy", "execute"),
+    ([0, 1, 2], [1, 2, 0], "basis", [0, 1, 1], [1, 2, 0], [("RX", [A3], [0]), ("CNOT", [], [0, 1])],
+     [{"kind": "state"}], "numpy", "qnode"),
+    ([0, 1, 2], [0, 1, 2], "basis", [1], [2], [("Hadamard", [], [0]), ("CNOT", [], [0, 1])],
+     [{"kind": "probs", "wires": [2, 0]}, {"kind": "purity", "wires": [2]}], "numpy", "qnode"),
+    ([0, 1, 2], [0, 1, 2], "vec", PREP_VECS[2][2], [2, 1], [("RY", [A1], [0]), ("Toffoli", [], [0, 2, 1])],
+     [{"kind": "state"}], "autograd", "qnode"),
+    ([0, 1], [0, 1], "vec", PREP_VECS[2][4], [1, 0], [("T", [], [1])],
+     [{"kind": "state"}], "jax", "qnode"),
+    ([0, 1, 2], [0, 1, 2], "vec", PREP_VECS[2][1], [2, 0], [("SX", [], [1]), ("CY", [], [1, 2])],
+     [{"kind": "probs", "wires": [1, 2, 0]}], "torch", "qnode"),
+    (["a", "b", "c"], ["b", "c", "a"], "vec", PREP_VECS[2][0], ["c", "a"], [("RY", [A1], ["b"]), ("CNOT", [], ["b", "c"])],
+     [{"kind": "state"}], "numpy", "qnode"),
+    ([3, "q", 0], [0, 3, "q"], "basis", [1, 0, 1], ["q", 0, 3], [("RX", [A2], [0]), ("CZ", [], [3, "q"])],
+     [{"kind": "probs", "wires": [3, "q", 0]}, {"kind": "expval", "word": ["Z"], "wires": ["q"]}], "numpy", "qnode"),
+]
+# entropies / mutual information in several logarithm bases (log_base None = natural logarithm)
+ENT_GATES = [("RY", [A1], [0]), ("RY", [A2], [1]), ("CNOT", [], [0, 1]), ("RY", [A3], [2]), ("CNOT", [], [1, 2])]
+FIXED += [
+    ([0, 1, 2], [0, 1, 2], None, None, None, ENT_GATES,
+     [{"kind": "vn_entropy", "wires": [0], "log_base": None}, {"kind": "vn_entropy", "wires": [0], "log_base": 2},
+      {"kind": "mutual_info", "wires0": [0], "wires1": [1], "log_base": None}], "numpy", "execute"),
+    ([0, 1, 2], [0, 1, 2], None, None, None, ENT_GATES,
+     [{"kind": "mutual_info", "wires0": [0], "wires1": [1], "log_base": 2}, {"kind": "mutual_info", "wires0": [0], "wires1": [1, 2], "log_base": 10},
+      {"kind": "vn_entropy", "wires": [2, 1], "log_base": 10}], "numpy", "execute"),
+    ([0, 1, 2], [2, 0, 1], None, None, None, ENT_GATES,
+     [{"kind": "mutual_info", "wires0": [2], "wires1": [0], "log_base": 3}, {"kind": "vn_entropy", "wires": [1], "log_base": 0.5}], "numpy", "qnode"),
+    (["a", "b", "c"], ["c", "a", "b"], "vec", PREP_VECS[2][1], ["c", "a"], [("RY", [A1], ["b"]), ("CNOT", [], ["b", "c"])],
+     [{"kind": "mutual_info", "wires0": ["a"], "wires1": ["c", "b"], "log_base": 2}, {"kind": "vn_entropy", "wires": ["c"], "log_base": 2}], "numpy", "qnode"),
+    ([0, 1], [0, 1], None, None, None, [("RY", [A2], [0]), ("CNOT", [], [0, 1])],
+     [{"kind": "mutual_info", "wires0": [1], "wires1": [0], "log_base": 2}], "autograd", "qnode"),
+    ([0, 1], [0, 1], None, None, None, [("RY", [A2], [0]), ("CNOT", [], [0, 1])],
+     [{"kind": "mutual_info", "wires0": [0], "wires1": [1], "log_base": 10}, {"kind": "vn_entropy", "wires": [1], "log_base": 10}], "jax", "qnode"),
+    ([0, 1], [0, 1], None, None, None, [("RY", [A1], [0]), ("CNOT", [], [0, 1])],
+     [{"kind": "mutual_info", "wires0": [0], "wires1": [1], "log_base": 2}], "torch", "qnode"),
+]
+for labels, dev_wires, pk, pdata, pws, gates, mdesc, iface, via in FIXED:
+    prep, ref = prep_pair(pk, pdata, pws) if pk else (None, [])
+    body = [getattr(qp, nm)(*ps, wires=ws) for nm, ps, ws in gates]
+    execute_case(labels, dev_wires, ([prep] if pk else []) + body, ref + body, meas_of(mdesc), mdesc, iface, via)
+    runs[-1]["fixed"] = True
+
 LABELSETS = [[0, 1, 2, 3, 4, 5], ["a", "b", "c", "d"], [3, "q", 0, "aux"], [10, 20]]
 ncirc = 60 if tier == "quick" else 600
 interfaces = ["numpy", "numpy", "numpy", "autograd", "jax", "torch"]
@@ -135,9 +270,14 @@ for ci in range(ncirc):
     labels = labels[:nw]
     dev_wires = list(labels); rng.shuffle(dev_wires)
     ops = rand_ops(labels)
-    if rng.random() < 0.15:       # mid-list state preparation at the start
-        bits = [rng.randint(0, 1) for _ in labels]
-        ops = [qp.BasisState(np.array(bits), wires=labels)] + ops
+    ref_ops = ops
+    if rng.random() < 0.3:        # leading state preparation on a random wire subset in random order
+        pws = rng.sample(labels, rng.randint(1, min(nw, 3)))
+        if rng.random() < 0.5:
+            prep, ref = prep_pair("basis", [rng.randint(0, 1) for _ in pws], pws)
+        else:
+            prep, ref = prep_pair("vec", rng.choice(PREP_VECS[len(pws)]), pws)
+        ops, ref_ops = [prep] + ops, ref + ops
     # measurements
     ms, mdesc = [], []
     for _ in range(rng.randint(1, 3)):
@@ -155,33 +295,23 @@ for ci in range(ncirc):
                 ms.append(qp.expval(o)); mdesc.append({"kind": "expval", "word": word, "wires": ws})
             else:
                 ms.append(qp.var(o)); mdesc.append({"kind": "var", "word": word, "wires": ws})
-        elif r < 0.9:
+        elif r < 0.87:
             ws = rng.sample(labels, rng.randint(1, nw))
             ms.append(qp.density_matrix(wires=ws)); mdesc.append({"kind": "dm", "wires": ws})
-        else:
+        elif r < 0.92:
             ws = rng.sample(labels, rng.randint(1, nw))
             ms.append(qp.purity(wires=ws)); mdesc.append({"kind": "purity", "wires": ws})
+        elif r < 0.96 or nw == 1:
+            ws = rng.sample(labels, rng.randint(1, nw))
+            mdesc.append({"kind": "vn_entropy", "wires": ws, "log_base": rng.choice([None, 2, 10, 3])})
+            ms.append(meas_of(mdesc[-1:])[0])
+        else:
+            ws = rng.sample(labels, rng.randint(2, nw)); k = rng.randint(1, len(ws) - 1)
+            mdesc.append({"kind": "mutual_info", "wires0": ws[:k], "wires1": ws[k:], "log_base": rng.choice([None, 2, 10, 3])})
+            ms.append(meas_of(mdesc[-1:])[0])
     if sum(1 for d in mdesc if d["kind"] == "state") and len(ms) > 1:
         ms, mdesc = ms[:1], mdesc[:1]
     iface = rng.choice(interfaces)
-    run = {"labels": labels, "dev_wires": dev_wires, "ops": [repr(o) for o in ops], "meas": mdesc, "interface": iface, "status": "ok"}
-    runs.append(run)
-    try:
-        run["circuit"] = exact_circuit_gallina(ops, dev_wires)
-        run["n"] = nw
-        dev = qp.device("default.qubit", wires=dev_wires)
-
-        def circuit():
-            for o in ops:
-                qp.apply(o)
-            return tuple(qp.apply(m) for m in ms) if len(ms) > 1 else qp.apply(ms[0])
-        qn = qp.QNode(circuit, dev, interface=None if iface == "numpy" else iface, diff_method=None if iface == "numpy" else "best")
-        res = qn()
-        res = res if isinstance(res, tuple) else (res,)
-        run["results"] = [jsonable(r.detach().numpy() if hasattr(r, "detach") else r) for r in res]
-    except NotExtractable as e:
-        run["status"], run["detail"] = "notex", str(e)[:200]
-    except Exception as e:
-        run["status"], run["detail"] = "error", f"{type(e).__name__}: {str(e)[:300]}"
+    execute_case(labels, dev_wires, ops, ref_ops, ms, mdesc, iface)
 json.dump(oblig, open(req["outdir"] + "/obligations.json", "w"))
 print(json.dumps({"items": items, "runs": runs, "kernel_wall": kernel_wall}))
